@@ -1,4 +1,4 @@
-HOOK_COMMITS = []
+HOOK_COMMITS = ["bcee830"]
 NOT_APPLICABLE = {}
 TB = ("Trusted base: TLC; the TLA+ model of the documented format (spec/Plenc*.tla, written from README / wire.go comments / golden files, "
       "cross-checked by its own design invariants); the harness's format-agnostic reflect builder/projector.")
@@ -112,4 +112,12 @@ CHECKS = {
                  "relation plus: only tags changed, gofmt-stable, type-checks, plenc builds a codec for every tagged struct, second run changes nothing, no crash.",
          "note": "Trusted base: TLC; go/parser, go/format, go/types and reflect.StructTag in the harness. Only files expressible in the abstract struct model are varied (DESIGN.md section 8). "
                  "Open finding F14b (multi-name declarations) is a named deviation."},
+ "C07": {"technique": "TLA+ models of codec construction / publication (CodecBuild) and interning (Intern) model-checked over all interleavings; schedules replayed deterministically on the real library through verif yield hooks; race detector as an observer",
+         "text": "TLC checks NoIncompleteUse, RegistryClosed / RegistryComplete, SameResult and termination for every interleaving of 2-3 processes building codecs for "
+                 "recursive, mutually recursive, nested and failing type families on a shared registry (and rejects, as a negative control, the protocol that published "
+                 "wrappers during a build), and Transparent / TableSound / NoViews / Monotone for interning; thousands of preemption-bounded and random schedules over "
+                 "ten families of concurrent first uses (incl. struct-keyed map decodes sharing the key scratch pool and interned fields) are replayed on fresh instances "
+                 "with real goroutines parked at the hooks, every goroutine's result judged by TLC against the sequential specification; a sample of the schedules and a "
+                 "free-running stress run under the race detector.",
+         "note": TB + " Atomicity is decided at the granularity of the yield hooks (commit bcee830, build tag verif); memory-model races are whatever the race detector reports on the driven executions."},
 }
